@@ -1176,6 +1176,9 @@ func c09EvaluateX(ctx *vh.Ctx, c *c09Case) error {
 			case o.Err == "gate-timeout":
 				sig = "C09:hang:" + c.Kind + ":gate"
 				what = "a run waited 15 s at a barrier of the harness for runs that neither arrived nor finished"
+			case c.Kind == "inflight" && o.Err == "others-held-up":
+				sig = "C09:liveness:inflight:hold-at=" + c.FL.Hold + ":runs-waited-for-parked-run"
+				what = "while one run was parked inside its own user code (" + c.FL.Hold + ") the other runs of the compiled object, started after it had parked, did not return within 12 s: the runs wait for each other"
 			case c.Kind == "inflight" && o.Err == "not-in-flight-together":
 				sig = "C09:liveness:inflight:runs-not-in-flight-together"
 				what = "a tool call of the run waited 12 s for the tool calls of the other concurrent runs to get in flight: something the runs of the process share bounds how many of them make progress at once"
